@@ -31,6 +31,7 @@ pub struct TraceOut {
     pub overlaps: u64,
     pub max_inside: usize,
     pub panics_injected: u64,
+    pub unwinding_dispatches: u64,
     pub layout: String,
     pub nontrivial: bool,
     pub sample_log: String,
@@ -333,7 +334,18 @@ pub fn eval_case(ops: &[Op], drv: Option<&mut Drv>, pools: &[Pool], rng: &mut Rn
         shared.round.fetch_add(1, SeqCst);
         // `RunNow for Dispatcher` (dispatcher.rs) is another way to call `dispatch`
         let via_run_now = rng.chance(30);
-        let res = catch_unwind(AssertUnwindSafe(|| match mode.as_str() {
+        // the dispatch is issued by a destructor while the calling thread unwinds from a panic of its
+        // own (a guard that flushes one last frame): it runs like any other dispatch
+        let in_unwind = panicking.is_empty() && !cfg.panics && !Op::has_tl_in_batch(ops, false) && rng.chance(if cfg.force_overlap { 35 } else { 12 });
+        struct OnDrop<F: FnMut()>(F);
+        impl<F: FnMut()> Drop for OnDrop<F> {
+            fn drop(&mut self) {
+                (self.0)()
+            }
+        }
+        shared.caller_unwinding.store(in_unwind, SeqCst);
+        let res = catch_unwind(AssertUnwindSafe(|| {
+            let mut go = || match mode.as_str() {
             "seq" => {
                 disp.dispatch_seq(&world);
                 disp.dispatch_thread_local(&world);
@@ -344,7 +356,23 @@ pub fn eval_case(ops: &[Op], drv: Option<&mut Drv>, pools: &[Pool], rng: &mut Rn
             "tlonly" => disp.dispatch_thread_local(&world),
             _ if via_run_now => disp.run_now(&world),
             _ => disp.dispatch(&world),
+            };
+            if in_unwind {
+                let _g = OnDrop(go);
+                panic!("harness: the caller unwinds");
+            } else {
+                go()
+            }
         }));
+        shared.caller_unwinding.store(false, SeqCst);
+        let res = match res {
+            Err(p) if in_unwind && panic_message(&p) == "harness: the caller unwinds" => Ok(()),
+            Ok(()) if in_unwind => unreachable!(),
+            r => r,
+        };
+        if in_unwind {
+            out.unwinding_dispatches += 1;
+        }
         let held_outside = outer_guard.is_some();
         drop(outer_guard);
         let log = shared.take_log();
@@ -609,6 +637,7 @@ pub fn run(args: &Args, rep: &mut Report) {
         rep.add("overlapping_window_pairs_observed", o.overlaps);
         rep.add("cases_dispatched_through_send_dispatcher", o.sendable);
         rep.add("panics_injected", o.panics_injected);
+        rep.add("dispatches_issued_while_the_caller_unwinds", o.unwinding_dispatches);
         if o.max_inside > 1 {
             rep.count("cases_with_real_overlap");
         }
